@@ -794,6 +794,7 @@ registry! {
     ByteArray<255>; ByteArray<65535>; ByteArray<65536>; ByteArray<70000>;            // (whatever is computed from N at compile time)
     CString; Cow<'static, CStr>; &'static CStr;
     // transparent wrappers
+    (u8, Option<u8>); (Option<u32>,); (u8, (Option<u8>,)); Vec<(u8, Option<bool>)>; (Option<u8>, Option<String>, Option<bool>); (u8, Option<u8>, u8, Option<u8>);
     Wrapping<u16>; Wrapping<i64>; Wrapping<u8>; Wrapping<i8>; Wrapping<u32>; Wrapping<i32>; Wrapping<i16>; Wrapping<u64>; Wrapping<usize>; Wrapping<isize>; Cell<u32>; Cell<Option<i8>>; RefCell<String>; RefCell<Vec<u8>>; Box<u64>; Box<Vec<Option<bool>>>;
     Cow<'static, [u8]>; Box<Cell<Wrapping<i16>>>;
     // option / result
